@@ -359,10 +359,12 @@ register(
 
 # ------------------------------------------------------------------------------------------ C14
 
-def gen_heter_script(rng, name, max_ops=35, ncb=5, lvalue_enqueue=False):
+def gen_heter_script(rng, name, max_ops=35, ncb=5, lvalue_enqueue=False, inc=False):
     """ncb: number of callback kinds of the harness variant; argument kind 6 (a Big lvalue) is always dispatched
     directly, and enqueued only if lvalue_enqueue (on the variant with a non-const reference prototype that is
     the known finding D10)"""
+    if inc:
+        return gen_heter_inc_script(rng, name, max_ops)
     lines = ["--- %s" % name]
     nk = rng.randint(1, 2)
     issued = 0
@@ -396,14 +398,48 @@ def gen_heter_script(rng, name, max_ops=35, ncb=5, lvalue_enqueue=False):
     return "\n".join(lines) + "\n"
 
 
+def gen_heter_inc_script(rng, name, max_ops=35):
+    """event-included passing form (harness/seq_heter_inc.cpp): kinds 0 = (event), 1 = (event, int); no spawning callback ids, no hcopy"""
+    lines = ["--- %s" % name]
+    nk = rng.randint(1, 2)
+    issued = 0
+    owner = {}
+    for _ in range(rng.randint(6, max_ops)):
+        r = rng.random()
+        k = rng.randrange(nk)
+        if r < 0.22:
+            kind = rng.randrange(2)
+            lines.append("do hlisten %d %d %d" % (k, kind, kind * 100 + rng.randint(1, 8)))
+            owner[issued] = k
+            issued += 1
+        elif r < 0.28:
+            mine = [h for h, o in owner.items() if o == k]
+            lines.append("do hremove %d %d" % (k, rng.choice(mine) if mine and rng.random() < 0.85 else issued + rng.randint(0, 2)))
+        elif r < 0.42:
+            lines.append("do hdispatch %d %d %d" % (k, rng.randrange(2), rng.randint(0, 20)))
+        elif r < 0.72:
+            lines.append("do henqueue %d %d %d" % (k, rng.randrange(2), rng.randint(0, 20)))
+        elif r < 0.80:
+            lines.append("do hprocessone")
+        elif r < 0.88:
+            lines.append("do hprocess")
+        else:
+            m = rng.randint(1, 3)
+            lines.append("do hprocessif %d %d %d" % (rng.randrange(2), m, rng.randrange(m)))
+    lines.append("do hprocess")
+    return "\n".join(lines) + "\n"
+
+
 def heter_suite(ctx, search=False):
     quick = ctx.quick()
     jobs = [dict(src="seq_heter.cpp", out_name="seq_heter_o%d" % o, defines=["VH_ORDER=%d" % o]) for o in (0, 1, 2)]
+    jobs.append(dict(src="seq_heter_inc.cpp", out_name="seq_heter_inc"))
     if not quick:
         jobs.append(dict(src="seq_heter.cpp", out_name="seq_heter_o0_clang11", defines=["VH_ORDER=0"], cxx="clang++-14", std="c++11"))
     builds = vlib.build_many(jobs)
     ctx.rule = ("random histories on HeterEventQueue over 5 prototypes (void(), void(int), void(const std::string&), void(const Big&) with Big a 70+ byte non-trivial type, void(long) "
-"overlapping with void(int)), two listing orders, and a third list with a non-const reference prototype void(Big&) listed before void(const Big&); "
+"overlapping with void(int)), two listing orders, a third list with a non-const reference prototype void(Big&) listed before void(const Big&), "
+                "and the event-included passing form (ArgumentPassingIncludeEvent) with a long std::string event handed over as an rvalue; copies of the queue (hcopy) stay independent; "
                 "callbacks / arguments / predicates of every kind incl. convertible ones (long, short -> first listed match) and lvalue arguments; "
                 "queued events of different prototypes in recycled slots; processIf with predicates of every prototype; the library's own prototype selection is compared with "
                 "first-match over the CanInvoke matrix measured from the compiler; ASan/UBSan on; distinct = distinct canonical output; "
@@ -423,6 +459,9 @@ def heter_suite(ctx, search=False):
             continue
         o2 = job["out_name"] == "seq_heter_o2"
         scripts = scripts_o2 if o2 else scripts_std
+        if job["out_name"] == "seq_heter_inc":
+            # ArgumentPassingIncludeEvent with a long std::string event passed as an rvalue
+            scripts = [gen_heter_script(rng, "C14inc_%d_%d" % (ctx.seed, i), inc=True) for i in range(n // 2)]
         rc, mat, e = vlib.sh([exe, "--matrix"], timeout=30)
         B = 200
         for off in range(0, len(scripts), B):
